@@ -26,6 +26,10 @@ P = {
          "Untaint precedes and gates the cloud request, which is exactly N − untainted ≥ 1; newest-first over all tainted nodes; no stale cached desired capacity is read for a decision within one scan.", "§4 C07"),
  "C08": ("other", "comparator normal form + collect-loop / sort-dominates-loop / bounded-accumulator recognisers",
          "The taint loop visits a complete oldest-first sorted copy of the untainted list in order and skips a node only when its write failed (modulo sort.Sort).", "§4 C08"),
+ "C14": ("other", "return-site path conditions of each filter compared with the documented predicate (truth-table equivalence / atom classification) + existential-search and full-traversal loop recognisers",
+         "Each filter computes the documented predicate for all pod/node shapes at once (not a small-scope enumeration); listers apply exactly the filter.", "§4 C14"),
+ "C15": ("other", "value provenance (fresh Get → Update), store census on the fetched object, struct-literal field terms, search-loop exits vs Update reachability, slice-removal idiom recogniser, writer/reader agreement",
+         "Only Spec.Taints of the freshly fetched node changes, by exactly one appended/removed escalator taint with the right key/value/effect; an existing taint is never re-stamped.", "§4 C15"),
  "C16": ("other", "accept-set extraction from the validator's closure calls + propositional/linear entailment of each invariant + sibling cross-check of accessors + gate dominance + struct-tag vs documented-key table agreement",
          "The accept set entails every stated invariant; validation gates every configuration with a fatal exit; json tags = documented keys (one recorded finding: scale_up_cool_down_timeout has no field).", "§4 C16"),
  "C17": ("other", "linear-fact entailment before every write-reaching call + struct-literal field provenance + head/tail chunking-loop recogniser",
